@@ -393,10 +393,7 @@ func injectFault(r *rng, s *aSpec, k int) string {
 		}
 		return "macro and token share a name"
 	case 2:
-		toks[1].name = pick(r, []string{"lower", "TK_", "A__B", "9X"})
-		if toks[1].name == "9X" {
-			toks[1].name = "Tk"
-		}
+		toks[1].name = pick(r, []string{"lower", "TK_", "A__B", "Tk", "HTTP_v2", "A_b", "AB_cD", "X_1y", "A_B_c", "Ab_C"})
 		return "bad token name"
 	case 3:
 		toks[1].name = pick(r, []string{"EOF", "ERROR"})
@@ -526,6 +523,29 @@ func injectFault(r *rng, s *aSpec, k int) string {
 			toks[1].acts = append(toks[1].acts, lact{kind: "push", arg: ms[0].name})
 		}
 		return "well-formed: @push_mode of the default mode and of a declared mode"
+	case 33:
+		// NOT a fault: digits and single underscores inside a name
+		toks[1].name = pick(r, []string{"UTF_8", "A_1", "A1_B2_C3", "X9"})
+		return "well-formed: token name with digits and single underscores"
+	case 34:
+		macros[0].name = pick(r, []string{"HEX_d", "Dig", "D__X", "D_", "DIG_it"})
+		for _, d := range s.all() {
+			for _, seq := range d.alts {
+				for _, t := range seq {
+					if t.re.kind == 3 && t.re.ref == "DIGIT" {
+						t.re.ref = macros[0].name
+					}
+				}
+			}
+		}
+		return "bad macro name"
+	case 35:
+		exts := s.find("external")
+		if len(exts) == 0 {
+			return ""
+		}
+		exts[0].names[0] = pick(r, []string{"EXT_a", "Ext", "EXT__A", "EXTA_", "E_xT"})
+		return "bad external name"
 	case 24:
 		rules[1].name = "TK0"
 		for _, d := range rules {
@@ -542,7 +562,7 @@ func injectFault(r *rng, s *aSpec, k int) string {
 	return ""
 }
 
-const c17MaxFault = 32
+const c17MaxFault = 35
 
 func (s *aSpec) litOf(d *aDecl) string {
 	var sb strings.Builder
